@@ -54,9 +54,9 @@ def known_class(line, impl_result, mon_result):
 def generate(rng, tier):
     k = 1 if tier == "quick" else 12
     return bc.mk_cases(rng, [
-        ("order", 500 * k, bc.gen_order),
-        ("follow", 300 * k, bc.gen_followup),
-        ("life", 300 * k, bc.gen_lifecycle),
+        ("order", 1200 * k, bc.gen_order),
+        ("follow", 800 * k, bc.gen_followup),
+        ("life", 1000 * k, bc.gen_lifecycle),
         ("dotted", 20 * k, lambda r, i: bc.gen_special(r, i, "dotted")),
         ("case", 40 * k, lambda r, i: bc.gen_special(r, i, "case")),
         ("long", 3 * k, bc.gen_long),
